@@ -20,6 +20,7 @@
 From Coq Require Import List ZArith NArith Bool.
 From Verif Require Import VM.
 From C08 Require Import Spec Base Control Crypto Predicate Proofs Runs.
+From C08 Require OpTie.
 Import ListNotations.
 
 (* ---- every opcode byte ---- *)
@@ -108,3 +109,17 @@ Proof.
     eq_ind_r (fun b => b = true <-> _) (ms_search_match _ keys sigs) (multisig_scan_eq cr msg keys sigs)).
 Qed.
 Print Assumptions c08_multisig_declarative.
+
+(* ---- tie to the source: the opcode table translated from protocol/vm/ops.go on this run
+        (tools/optable -> VerifGen.OpTable) assigns to every one of the 256 opcode bytes the Go
+        handler that the corresponding branch of VM.exec_op models ([OpTie.model_handler]), marks
+        exactly the bytes of VM.is_expansion as expansion opcodes, and has the DATA_n /
+        small-integer ranges and the constants the model's parser uses ---- *)
+Theorem c08_optable_tied_to_source :
+  (forall b, (b < 256)%N -> C08.OpTie.model_handler b = C08.OpTie.gen_handler b)
+  /\ (forall b, (b < 256)%N -> VM.is_expansion b = C08.OpTie.gen_is_expansion b)
+  /\ C08.OpTie.table_well_formed = true.
+Proof.
+  exact (conj C08.OpTie.optable_handlers_lemma (conj C08.OpTie.optable_expansion_lemma C08.OpTie.table_well_formed_ok)).
+Qed.
+Print Assumptions c08_optable_tied_to_source.
